@@ -129,6 +129,10 @@ let run (t : string list) : string =
         let cmd = { Validate.sc_type = etype_of et; sc_ctx = bytes_of_hex ctx; sc_payload = parse_json js } in
         let r = Validate.store_check reg cmd in
         Printf.sprintf "D=%s S=%s %s" (def_name d) (res_name r) (observe reg cmd r)
+    | ["store_text"; sch; _et; _ctx; _text; "!"; _plus] ->
+        (* the payload text is not valid JSON: it denotes no command, the front answers with a parse error *)
+        let d = SchemaReg.define [] the_type (parse_schema sch) in
+        Printf.sprintf "D=%s S=PARSE V=0 C= T=" (def_name d)
     | ["store_text"; sch; et; ctx; _text; js; plus] ->
         let d = SchemaReg.define [] the_type (parse_schema sch) in
         let reg = SchemaReg.define_reg [] the_type (parse_schema sch) in
